@@ -3,7 +3,7 @@
    the extracted datatypes. *)
 From Coq Require Import ZArith List Floats.
 From Coq Require Import ExtrOcamlBasic ExtrOCamlFloats ExtrOCamlInt63.
-From SC Require Import Num Vec3 Kernel FloatIO Grid Integrator.
+From SC Require Import Num Vec3 Kernel FloatIO Grid Integrator CellCycle.
 
 Definition kernel_f := kernel NumF.
 
@@ -28,8 +28,18 @@ Definition grid3_content_at_f := @content3 Z.
 Definition integ_steps_f := @steps float NumF.
 Definition integ_node_mass_f := @node_mass float NumF.
 
+(* C04: cell cycle (libm functions are arguments supplied by the OCaml driver) *)
+Definition cc_step_f := @cycle_step float NumF.
+Definition cc_ready_f := @is_ready float NumF.
+Definition cc_below_f := @is_below float NumF.
+Definition cc_growth_f := @growth_of float NumF.
+Definition cc_divvol_f := @divvol_of float NumF.
+Definition cc_initial_target_f := @initial_target float NumF.
+Definition cc_pressure_f := @update_pressure float NumF.
+
 Extraction Language OCaml.
 Extraction "model.ml" NumF kernel_f
   grid_dims_f grid_idx3_f grid_in_range_f grid_flat_f grid_empty_f grid_place_f grid_nbh_f grid_content_f grid_content_at_f
   grid3_empty_f grid3_place_f grid3_nbh_f grid3_content_f grid3_content_at_f
-  integ_steps_f integ_node_mass_f.
+  integ_steps_f integ_node_mass_f
+  cc_step_f cc_ready_f cc_below_f cc_growth_f cc_divvol_f cc_initial_target_f cc_pressure_f.
